@@ -9,6 +9,7 @@ path (depth-first), solver frames being kept in sync with the decision stack.
 """
 import builtins
 import os
+import sys
 import time
 
 import z3
@@ -157,6 +158,9 @@ class Ctx:
         return r
 
     def model(self, *extra, quick=False):
+        return self._model(extra, quick, speed_factor())
+
+    def _model(self, extra, quick, K):
         """decide pc AND extra.  Two engines: a FRESH solver (z3's one-shot preprocessing + bit-blasting pipeline,
         10-500x faster than the incremental core on large arithmetic obligations) and the incremental solver
         (much faster on the array-heavy obligations of the translation checks).  `self.prefer` ('fresh' | 'incr')
@@ -184,7 +188,8 @@ class Ctx:
             """restart ladder: the run-time distribution of these queries is heavy-tailed in the random seed"""
             asserts = list(self.solver.assertions())
             extra_eq = strengthen(asserts)
-            ladder = [(min(timeout, 2000), 0), (min(timeout, 6000), 1), (min(timeout, 15000), 2), (timeout, 3)]
+            ladder = [(min(timeout, int(2000 * K)), 0), (min(timeout, int(6000 * K)), 1),
+                      (min(timeout, int(15000 * K)), 2), (timeout, 3)]
             done = 0
             r_ = z3.unknown
             for tmo, seed in ladder:
@@ -202,6 +207,29 @@ class Ctx:
                     return r_, (s.model() if r_ == z3.sat else None)
                 done = tmo
             return r_, None
+
+        def abstracted(timeout):
+            """generalise the query: every register-read multiplexer (a 34-way if-tree over the bank table, built by
+            spec.state.bank_get on both the code side -- through the summaries -- and the oracle side) is replaced by a
+            fresh constant.  The original query is a substitution instance of the generalised one, so unsat carries
+            over; sat / unknown says nothing and the caller goes on with the original query."""
+            try:
+                from spec.state import MUX
+            except Exception:
+                return z3.unknown, None
+            if not MUX:
+                return z3.unknown, None
+            fs = list(self.solver.assertions()) + list(extra)
+            pairs = [(t, z3.BitVec('mux!%d' % i, t.size())) for i, t in MUX.items()]
+            fs2 = [z3.substitute(f, *pairs) for f in fs]
+            if all(a.eq(b) for a, b in zip(fs, fs2)):
+                return z3.unknown, None
+            s = z3.SolverFor('QF_ABV')
+            s.set('timeout', timeout)
+            s.add(fs2)
+            r_ = s.check()
+            self.nabs = getattr(self, 'nabs', 0) + (1 if r_ == z3.unsat else 0)
+            return (r_, None) if r_ == z3.unsat else (z3.unknown, None)
 
         def bitblast(timeout):
             """plain simplify + bit-blast + SAT: after naive bit-blasting structurally different but equal mux /
@@ -230,13 +258,16 @@ class Ctx:
         if getattr(self, 'prefer', 'fresh') == 'incr':
             r, m = incr()
             if r == z3.unknown and not quick:
-                r, m = fresh(self.timeout_ms)
+                r, m = fresh(int(self.timeout_ms * K))
         else:
-            r, m = fresh(min(2500, self.timeout_ms) if quick else min(6000, self.timeout_ms))
+            TO = int(self.timeout_ms * K)
+            r, m = fresh(min(int(2500 * K), TO) if quick else min(int(6000 * K), TO))
+            if r == z3.unknown and ABSTRACT_MUX:
+                r, m = abstracted(min(int((4000 if quick else 20000) * K), TO))
             if r == z3.unknown:
-                r, m = bitblast(min(4000 if quick else 30000, self.timeout_ms))
+                r, m = bitblast(min(int((4000 if quick else 30000) * K), TO))
             if r == z3.unknown and not quick:
-                r, m = fresh(self.timeout_ms)
+                r, m = fresh(TO)
             if r == z3.unknown and not quick:
                 r, m = incr()
         self.tsolve += time.time() - t
@@ -405,11 +436,41 @@ class Stats:
                     cross=dict(self.cross))
 
 
+_SPEED = None
+
+
+def speed_factor():
+    """Solver budgets are wall-clock; on a slower (or busier) machine a query that needs 2 s here needs k x 2 s there,
+    misses the same budget, and is retried on the next rung of the ladder or split -- a super-linear slow-down.  A
+    fixed small bit-vector query (9-bit division identity, ~0.3 s on the development machine) is timed once per
+    process and every budget is scaled by the ratio (clamped to [1, 5]); VERIF_SPEED overrides."""
+    global _SPEED
+    if _SPEED is None:
+        v = os.environ.get('VERIF_SPEED')
+        if v:
+            _SPEED = max(0.5, float(v))
+        else:
+            best = None
+            for _ in range(2):
+                t = time.time()
+                x, y = z3.BitVecs('cal!x cal!y', 9)
+                s = z3.SolverFor('QF_BV')
+                s.set('timeout', 20000)
+                s.set('random_seed', 0)
+                s.add(y != 0, z3.UDiv(x, y) * y + z3.URem(x, y) != x)
+                s.check()
+                d = time.time() - t
+                best = d if best is None else min(best, d)
+            _SPEED = min(5.0, max(1.0, best / 0.30))
+    return _SPEED
+
+
 class Hang(Exception):
     """a single path ran longer than PATH_SECONDS of wall time (non-terminating loop in the code under test)"""
 
 
 PATH_SECONDS = int(os.environ.get('VERIF_PATH_SECONDS', '200') or 200)
+ABSTRACT_MUX = os.environ.get('VERIF_ABSTRACT_MUX', '0') == '1'  # measured: no gain on the long-pole rows; off
 
 
 def _on_alarm(signum, frame):
@@ -434,14 +495,19 @@ def explore(fn, on_path=None, max_paths=10 ** 9, max_seconds=None):
     q0, t0 = c.nsolve, c.tsolve
     c.cross = {}
     st = Stats()
-    c.deadline = (time.time() + max_seconds) if max_seconds else None
+    c.deadline = (time.time() + max_seconds * speed_factor()) if max_seconds else None
     try:
         while True:
             c.start()
             try:
                 try:
-                    _watchdog(PATH_SECONDS)
+                    _watchdog(int(PATH_SECONDS * speed_factor()))
                     try:
+                        mx = sys.modules.get('spec.state')
+                        if mx is not None and hasattr(mx, 'MUX'):
+                            mx.MUX.clear()  # the registry of register-read multiplexers is per path
+                            del mx.WRITES_IMPL[:]
+                            del mx.WRITES_OR[:]
                         r = fn()
                     finally:
                         _watchdog(0)
